@@ -378,6 +378,12 @@ def rule_f(ctx):
     dispatch.rule_routing(ctx, 'C01.e')
 
 
+def rule_g(ctx):
+    """What each handler does for each event is the protocol's reaction (delivery, emission, credit, cancellation)."""
+    from .reactions import rule_reactions
+    rule_reactions(ctx, 'C01.f')
+
+
 def rule_d(ctx):
     from .c03 import rule_b as c03b
     c03b(ctx)
@@ -390,4 +396,4 @@ def rule_d(ctx):
     c03f(ctx)
 
 
-RULES = [('C01.a', rule_a), ('C01.b', rule_b), ('C01.c', rule_c), ('C01.d', rule_e), ('C01.e', rule_f), ('C05.a+C05.f+C03.b+C03.c+C03.f', rule_d)]
+RULES = [('C01.a', rule_a), ('C01.b', rule_b), ('C01.c', rule_c), ('C01.d', rule_e), ('C01.e', rule_f), ('C01.f', rule_g), ('C05.a+C05.f+C03.b+C03.c+C03.f', rule_d)]
